@@ -31,6 +31,8 @@ class CheckFailed(BaseException):
 
 
 CTX = None
+import os as _os
+PARANOID = bool(_os.environ.get('SYMX_PARANOID'))
 
 
 def ctx():
@@ -221,6 +223,11 @@ def branch(cond, aux=None):
     else:
         m = c.need_model()
         cur = T.ev(cond, m)
+        if PARANOID:
+            okc, _ = c.sat(cond if cur else T.bnot(cond))
+            if not okc:
+                bad = [T.show(t) for t in c.cons if not T.ev(t, m)]
+                raise ReplayDivergence('stale model: taken side infeasible for %s; violated: %s' % (T.show(cond), bad[:3]))
         other = T.bnot(cond) if cur else cond
         ok, m2 = c.sat(other)
         take = cur
@@ -392,7 +399,9 @@ def run_path(harness, prefix, model, outcome_of=None):
     except RecursionError as e:
         res['status'] = 'unsupported'
         res['exc'] = 'RecursionError'
-    except Exception as e:   # an exception the harness did not declare: candidate violation
+    except (KeyboardInterrupt, GeneratorExit):
+        raise
+    except BaseException as e:   # an exception the harness did not declare (including BaseException subclasses of the code under test): candidate violation
         import traceback
         res['status'] = 'exception'
         res['exc'] = '%s: %s' % (type(e).__name__, str(e)[:200])
@@ -433,7 +442,9 @@ def run_concrete(harness, inputs):
     except Unsupported as e:
         out['status'] = 'unsupported'
         out['exc'] = repr(e)
-    except Exception as e:
+    except (KeyboardInterrupt, GeneratorExit):
+        raise
+    except BaseException as e:
         import traceback
         out['status'] = 'exception'
         out['exc'] = '%s: %s' % (type(e).__name__, str(e)[:200])
